@@ -13,13 +13,27 @@ struct C15 : Harness {
         return rc::gen::exec([]() {
             HistGen g;
             g.o.lifecycle = true; g.o.invalid = *chance(30); g.o.midstream = true; g.o.allocfail = true;
-            int nslots = *irange(1, 6);
+            // shapes: ordinary (1-6 objects, 4-60 calls) / crowd (7-24 objects, mostly of one kind: thresholds in the number of
+            // live objects, creation and cleanup order among siblings) / churn (one or two objects initialised and cleaned up
+            // 40-300 times: thresholds in the number of life cycles or calls)
+            int shape = *rc::gen::weightedOneOf<int>({{90, rc::gen::just(0)}, {6, rc::gen::just(1)}, {4, rc::gen::just(2)}});
+            int nslots = shape == 1 ? *irange(7, 24) : shape == 2 ? *irange(1, 2) : *irange(1, 6);
+            int crowd_kind = *rc::gen::element((int)C128, (int)C64, (int)CM, (int)P128, (int)P64, (int)PM);
             for (int i = 0; i < nslots; ++i) {
                 int kind = *rc::gen::element((int)C128, (int)C64, (int)CM, (int)P128, (int)P64, (int)PM);
+                if (shape == 1 && *chance(75)) kind = crowd_kind;
                 auto bes = backends_for(kind);
                 g.add_slot(kind, *rc::gen::elementOf(bes), *rc::gen::element(0, 0, 0xFF, 0xA5, 0x01));
             }
-            int n = *irange(4, 60);
+            if (shape == 2) {
+                int cycles = *irange(40, 300);
+                for (int c = 0; c < cycles; ++c) {
+                    int i = *irange(0, nslots - 1);
+                    if (!g.ss[i].live) { g.step(i); if (g.ss[i].live && *chance(30)) g.step(i); }
+                    else g.cleanup(i);
+                }
+            }
+            int n = shape == 1 ? *irange(30, 200) : *irange(4, 60);
             for (int i = 0; i < n; ++i) g.step(*irange(0, nslots - 1));
             // a history may end with objects still live (the harness then checks the executor's own
             // final cleanup leaves nothing behind) or clean everything itself
@@ -70,7 +84,9 @@ struct C15 : Harness {
                 }
                 if (reinit) st.count("re-init-after-cleanup");
                 if (uac) st.count("use-after-cleanup");
-                st.count("max-live-objects=" + std::to_string(maxlive));
+                st.count("max-live-objects=" + std::string(maxlive > 8 ? ">8" : std::to_string(maxlive)));
+                int cycles = 0; for (size_t i = 0; i < p.size(); ++i) if (p[i].name.find(".init") != std::string::npos && t[i].ret == 1) ++cycles;
+                st.count(cycles >= 100 ? "life-cycles>=100" : cycles >= 20 ? "life-cycles=20..99" : "life-cycles<20");
                 st.extra["frees"] += (double)skv_mon_frees();
                 st.case_done(ser(p), reinit && uac && maxlive >= 2);
             }
